@@ -163,6 +163,29 @@ check against SHA1(salt | 20 zero bytes). distinct = distinct (length, distribut
                     rep.count("file_bitflip_sweeps", 1);
                 }
             }
+            if i % 3 == 0 {
+                // related inputs immediately after one another on this thread
+                let mut salt2 = salt;
+                salt2[15] ^= 1;
+                let mut key2 = key;
+                key2[31] ^= 0x80;
+                judge(&mut rep, &data, cuts, &salt2, &key, "related_consecutive");
+                judge(&mut rep, &data, cuts, &salt, &key2, "related_consecutive");
+                if len > 1 {
+                    let shorter = &data[..len - 1];
+                    let c2 = [cuts[0].min(len - 1), cuts[1].min(len - 1), cuts[2].min(len - 1), cuts[3].min(len - 1)];
+                    judge(&mut rep, shorter, c2, &salt, &key, "related_consecutive");
+                    let mut d2 = data.clone();
+                    d2[len - 1] ^= 1;
+                    judge(&mut rep, &d2, cuts, &salt, &key, "related_consecutive");
+                    let mut longer = data.clone();
+                    longer.push(0);
+                    judge(&mut rep, &longer, cuts, &salt, &key, "related_consecutive");
+                }
+                judge(&mut rep, &data, [0, 0, 0, 0], &salt, &key, "related_consecutive");
+                judge(&mut rep, &data, cuts, &salt, &key, "related_consecutive");
+                rep.count("related_consecutive_groups", 1);
+            }
             if i == 0 && sh == 0 {
                 rep.sample(format!("{} bytes cut at {:?}: windows == mac == generic == {}", len, cuts, hex(&model(&[&data], &salt, &key))));
             }
